@@ -31,6 +31,10 @@ pub struct HistSpec {
     pub fixed_cases: fn() -> Vec<Vec<Step>>,
     pub label_floors: Vec<(&'static str, u64)>,
     pub assumptions: Vec<&'static str>,
+    /// optional in-process phase run first, accumulating into the same evidence
+    pub pre_phase: Option<fn(&mut Evidence, Tier, u64)>,
+    /// optional replay handler for pre-phase cases (Some(exit code) if it handled the file)
+    pub pre_replay: Option<fn(&Value) -> Option<i32>>,
 }
 
 pub fn history_strategy(cmd: BoxedStrategy<Cmd>, max_len: usize) -> BoxedStrategy<Vec<Step>> {
@@ -94,6 +98,11 @@ pub fn run(spec: &HistSpec, tier: Tier, seed: u64, replay: Option<Value>) -> i32
         runner::run_script(wk, steps, &o)
     };
 
+    if let (Some(r), Some(pr)) = (&replay, spec.pre_replay) {
+        if let Some(code) = pr(r.get("case").unwrap_or(r)) {
+            return code;
+        }
+    }
     if let Some(r) = replay {
         let steps = runner::j2steps(r.get("case").unwrap_or(&r));
         let res = exec(&mut wk0, &steps);
@@ -114,6 +123,11 @@ pub fn run(spec: &HistSpec, tier: Tier, seed: u64, replay: Option<Value>) -> i32
         };
     }
 
+    if let Some(p) = spec.pre_phase {
+        std::panic::set_hook(Box::new(|_| {}));
+        p(&mut ev.lock().unwrap(), tier, seed);
+        let _ = std::panic::take_hook();
+    }
     // fixed cases (grid + regressions), serially on worker 0
     for steps in (spec.fixed_cases)() {
         let r = exec(&mut wk0, &steps);
